@@ -85,6 +85,7 @@ def aggregate(prop: str, tier: str, verif_seed: int, results: list,
         for k, v in (r.get('counters') or {}).items():
             counters[k] += v
     topo = collections.Counter(r.get('topo') for r in ok)
+    classes = collections.Counter(r.get('cls') or 'general' for r in ok)
     pol = collections.Counter(r.get('policy') for r in ok)
     gaps = collections.Counter(str(r.get('preempt_gap')) for r in ok)
     steps = sum(r.get('steps', 0) for r in ok)
@@ -149,6 +150,7 @@ def aggregate(prop: str, tier: str, verif_seed: int, results: list,
         'preemptions': sum(r.get('preempts', 0) for r in ok),
         'fault_and_probe_counters': dict(sorted(counters.items())),
         'topology_histogram': dict(topo),
+        'workload_class_histogram_conclusive': dict(classes),
         'policy_histogram': dict(pol),
         'preempt_gap_histogram': dict(gaps),
         'crash_points_fired': dict(crash_points),
